@@ -129,10 +129,17 @@ func forwardTarget(fn *ssa.Function) (*ssa.Function, map[*ssa.Parameter]ssa.Valu
 // checkResolverCaches: R10.1 (shared as R11.7): every sync.Map cache of the Resolver is keyed by everything - and by
 // the whole of everything - its cached value is computed from, and read under the key it is written under.
 func checkResolverCaches(p *core.Prog, r *core.Result, rule string) {
+	n := checkSyncMapCaches(p, r, rule, pkgMvs, "Resolver")
+	r.Floor(rule, n, 1, "resolver cache stores")
+}
+
+// checkSyncMapCaches applies the cache-key rule to every Store/LoadOrStore on a sync.Map field of the named struct type
+// ("" = any struct) in the package and returns the number of stores seen.
+func checkSyncMapCaches(p *core.Prog, r *core.Result, rule, pkgPath, ownerName string) int {
 	nCaches := 0
 	ignore := map[string]bool{"ctx.*": true, "r.*": true}
 	for _, fn := range p.ModuleFuncs() {
-		if fn.Pkg == nil || fn.Pkg.Pkg.Path() != pkgMvs {
+		if fn.Pkg == nil || fn.Pkg.Pkg.Path() != pkgPath {
 			continue
 		}
 		for _, c := range core.Calls(fn) {
@@ -141,7 +148,7 @@ func checkResolverCaches(p *core.Prog, r *core.Result, rule string) {
 				continue
 			}
 			owner, field := core.FieldOf(mc.Recv)
-			if owner == nil || owner.Obj().Name() != "Resolver" {
+			if owner == nil || ownerName != "" && owner.Obj().Name() != ownerName {
 				continue
 			}
 			nCaches++
@@ -195,7 +202,7 @@ func checkResolverCaches(p *core.Prog, r *core.Result, rule string) {
 			r.Check(okLoad, rule, construct+":lookup-key", p.InstrPos(c.(ssa.Instruction)), "looked up under the same key", "the cache is read under a different key than it is written")
 		}
 	}
-	r.Floor(rule, nCaches, 1, "resolver cache stores")
+	return nCaches
 }
 
 // truncatesArg: h is a module helper that returns a truncation of a string argument (s[:i], directly or through another
@@ -264,6 +271,117 @@ func paramDepsWhole(fn *ssa.Function, v ssa.Value) map[string]bool {
 	return out
 }
 
+// checkListedVersionsVerbatim implements R10.8.
+func checkListedVersionsVerbatim(p *core.Prog, r *core.Result, rule string) {
+	pkgVcs := core.ModulePath + "/internal/vcs"
+	injective := func(c *ssa.Call) bool {
+		if c.Call.IsInvoke() {
+			return false
+		}
+		h := core.Callee(c)
+		if h == nil {
+			return false
+		}
+		switch core.CalleeKey(h) {
+		case "path.Split", "path.Base", "strings.CutSuffix", "strings.TrimSuffix", "strings.CutPrefix", "strings.TrimPrefix",
+			"path/filepath.Split", "path/filepath.Base":
+			return true
+		}
+		// accessors of go-git's reference name (Short, String, Name): they select, they do not rewrite
+		if sig := h.Signature; sig.Recv() != nil && h.Pkg != nil && strings.Contains(h.Pkg.Pkg.Path(), "go-git") {
+			switch h.Name() {
+			case "Short", "String", "Name":
+				return true
+			}
+		}
+		return false
+	}
+	n := 0
+	for _, fn := range p.ModuleFuncs() {
+		if fn.Pkg == nil || fn.Pkg.Pkg.Path() != pkgVcs {
+			continue
+		}
+		k := 0
+		core.Instrs(fn, func(in ssa.Instruction) {
+			st, ok := in.(*ssa.Store)
+			if !ok {
+				return
+			}
+			inner, ok := st.Addr.(*ssa.FieldAddr)
+			if !ok {
+				return
+			}
+			outer, ok := inner.X.(*ssa.FieldAddr)
+			if !ok || !core.IsField(outer, pkgVcs, "Version", "Version") {
+				return
+			}
+			if _, f := core.FieldOf(inner); f != "Version" {
+				return
+			}
+			n++
+			k++
+			construct := fmt.Sprintf("%s#listed-version-%d", fname(fn), k)
+			var bad ssa.Value
+			seen := map[ssa.Value]bool{}
+			var walk func(v ssa.Value)
+			walk = func(v ssa.Value) {
+				if bad != nil || seen[v] {
+					return
+				}
+				seen[v] = true
+				switch x := v.(type) {
+				case *ssa.Extract:
+					walk(x.Tuple)
+				case *ssa.Call:
+					if !injective(x) {
+						bad = x
+						return
+					}
+					// the rewritten operand only (the first string argument, or the receiver)
+					if len(x.Call.Args) > 0 {
+						walk(x.Call.Args[0])
+					}
+				case *ssa.Phi:
+					for _, e := range x.Edges {
+						walk(e)
+					}
+				case *ssa.ChangeType:
+					walk(x.X)
+				case *ssa.Convert:
+					walk(x.X)
+				case *ssa.UnOp:
+					if x.Op == token.MUL {
+						if sv := core.SingleStore(x.X); sv != nil {
+							walk(sv)
+							return
+						}
+						if _, isElem := x.X.(*ssa.IndexAddr); isElem {
+							return // an element of the ref listing: the source
+						}
+					}
+					bad = x
+				case *ssa.Const, *ssa.Parameter:
+				default:
+					bad = x
+				}
+			}
+			walk(st.Val)
+			if bad != nil {
+				what := bad.String()
+				if c, ok := bad.(*ssa.Call); ok {
+					if h := core.Callee(c); h != nil {
+						what = "a call to " + core.CalleeKey(h)
+					}
+				}
+				r.Bad(rule, construct, p.InstrPos(st), "the version string of a listed version passes through %s on its way from the tag name: two tags (v1 and v1.0.0, v1.2.0 and v1.2.0+meta) can become the same path@version with different revisions, and which one a requirement resolves to follows the order of the remote's ref listing", what)
+			} else {
+				r.OK(rule, construct, p.InstrPos(st), "the listed version string is the tag's last path element, verbatim")
+			}
+		})
+	}
+	r.Floor(rule, n, 1, "versions listed from repository tags")
+}
+
 // ---------------------------------------------------------------------------------------------
 // C10
 
@@ -275,6 +393,7 @@ func runC10(p *core.Prog, r *core.Result) {
 		"R10.4 ordered results built from Go-map iteration inside internal/mvs are sorted before use or are order-insensitive; no map is folded into another under a colliding key",
 		"R10.7 locating the repository that owns a project path never returns 'the first answer received' from concurrent dials: which repository answers cannot depend on timing",
 		"R10.6 the version-resolution packages never order strings with < <= > >= (versions and major suffixes are ordered by semver.Compare only)",
+		"R10.8 the versions a repository lists carry each tag's own version string, verbatim: between the tag name and Version.Version there is nothing but taking the last path element (no canonicalisation or other many-to-one rewriting) - tag names are unique, so at most one listed entry per tag object equals a requested path@version and the revision a requirement resolves to does not depend on the order of the remote's ref listing",
 		"R10.5 a fetched project's summary lists every requirement of its configuration, one to one, in sorted name order",
 	}
 	r.NotDecided = []string{"that the result is the minimal-version-selection solution for all graphs (the algorithm lives in github.com/pgavlin/mvs, outside the repository; behavioural)", "network/VCS behaviour behind the resolver"}
@@ -765,6 +884,9 @@ func runC10(p *core.Prog, r *core.Result) {
 			r.Check(ok, "R10.5", "internal/mvs.(*Resolver).resolveProject#all-requirements", p.InstrPos(at), "the summary's requirement list has one entry per requirement of the fetched configuration, in sorted name order", "the summary's requirement list is not built one-to-one from the configuration's requirements in sorted order: requirement edges can be merged or dropped, and projects reachable only through them vanish from the build list")
 		}
 	}
+
+	// ---- R10.8 listed versions are the tags' own version strings
+	checkListedVersionsVerbatim(p, r, "R10.8")
 
 	// ---- R10.7 the repository that answers is not "whichever goroutine answered first"
 	if fpr := need(p, r, "R10.7", "internal/mvs", "Resolver", "findProjectRepository"); fpr != nil {
